@@ -30,17 +30,18 @@ def demo_root(pid, x, dst):
     blackbird_python, src, ...) but whose package directories are /repo's"""
     root = os.path.join(VERIF, "work", "demo", "%s_%s" % (pid, x))
     shutil.rmtree(root, ignore_errors=True)
+    # a copy, not symlinks: some demonstrations insist that blackbird.__file__ is inside "their" worktree
+    shutil.copytree(REPO, root, ignore=shutil.ignore_patterns(".git", "__pycache__", "*.pyc"))
     os.makedirs(os.path.join(root, "SEED", x))
     shutil.copy(os.path.join(dst, "demo.py"), os.path.join(root, "SEED", x, "demo.py"))
-    for name in os.listdir(REPO):
-        if name != ".git":
-            os.symlink(os.path.join(REPO, name), os.path.join(root, name))
     return root
 
 
 def run_demo(pid, x, dst, env):
     root = demo_root(pid, x, dst)
     try:
+        env = dict(env)
+        env["PYTHONPATH"] = os.path.join(root, "blackbird_python")
         return sh("/venv/bin/python %s" % os.path.join("SEED", x, "demo.py"), env=env, cwd=root, timeout=900)
     finally:
         shutil.rmtree(root, ignore_errors=True)
